@@ -1489,6 +1489,15 @@ func (vc *VC) elemPtrOf(fr *frame, st *State, e ast.Expr) (*ElemPtr, bool) {
 		}
 		break
 	}
+	if id, ok := e.(*ast.Ident); ok {
+		// a local that holds such a pointer: top := s.top(); top.f = v
+		if o, ok := fr.ctx.info.ObjectOf(id).(*types.Var); ok {
+			if ep, ok := st.vars[o].(*ElemPtr); ok {
+				return ep, true
+			}
+		}
+		return nil, false
+	}
 	call, ok := e.(*ast.CallExpr)
 	if !ok {
 		return nil, false
